@@ -223,7 +223,7 @@ def main():
 
     rc = 0
     if new_fail:
-        f = min(new_fail, key=lambda f: len(f.get("line", "")))
+        f = min(new_fail, key=lambda f: (f.get("rank", 1), len(f.get("line", ""))))
         path = write_replay(pid, "input", {"property": pid, "kind": "input", **f,
                                            "also_broken": broken, "disagreements": disagreements[:3],
                                            "failing_inputs_total": len(new_fail)})
